@@ -8,7 +8,7 @@ NOOP = {'kind': 'noop'}
 CUSTOM_SPECS = [
     {
         # (':snt\\d': a pattern whose only regular-expression syntax is a backslash escape)
-        'roles': {':ARG[0-9]': {}, ':mod': {}, ':domain': {}, ':op[0-9]+': {}, ':part-of': {}, ':snt\\d': {},
+        'roles': {':ARG[0-9]': {}, ':mod': {}, ':domain': {}, ':op[0-9]+': {}, ':part-of': {}, ':snt\\d': {}, ':q.': {},
                   ':loc': {}, ':name': {}, ':quant': {}, ':polarity': {}},
         'normalizations': {':mod-of': ':domain', ':domain-of': ':mod'},
         'reifications': [[':mod', 'have-mod-91', ':ARG1', ':ARG2'],
@@ -105,7 +105,7 @@ def inventory(spec):
         return edge, attr
     s = spec['spec']
     if ':mod' in s['roles']:
-        edge = [':ARG0', ':ARG1', ':ARG2', ':mod', ':domain', ':op1', ':op2', ':part-of', ':loc', ':snt2']
+        edge = [':ARG0', ':ARG1', ':ARG2', ':mod', ':domain', ':op1', ':op2', ':part-of', ':loc', ':snt2', ':q7']
         attr = [':name', ':quant', ':polarity', ':op1', ':mod']
     else:
         edge = [':Ra', ':Rb', ':Rc', ':x-of', ':rel', ':r\u00f4le']
